@@ -74,6 +74,16 @@ func iterStream(cfg *Config) *hx.Stats {
 		iterNestedOracle(cfg, st, w, rng, nProg+p)
 		st.Programs++
 	}
+	// children obtained through read-only / mutable enumerations of their parent, mutated and iterated
+	nRO := int(8 * cfg.Scale)
+	if nRO < 2 {
+		nRO = 2
+	}
+	for p := 0; p < nRO && len(st.Violations) <= 20 && st.HarnessErr == ""; p++ {
+		iterNestedReadOnly(cfg, st, w, rng, nProg+nNested+p)
+		st.Programs++
+	}
+	iterCheckRequired(cfg, st, append(append([]string{}, iterRequired...), iterNestRequired...))
 	st.TraceLines = w.Lines
 	st.Distinct = iterDistinct
 	atree.VerifSetThreshold(1024)
@@ -561,6 +571,8 @@ func iterArrayProgram(cfg *Config, st *hx.Stats, w *hx.W, rng *rand.Rand, p int)
 			e.itLoadedRound(k)
 		}
 		e.itFlavours()
+		e.itStop()
+		e.itObj()
 		e.itMutSet(sizeProf)
 		e.itFull()
 		e.step++
@@ -1000,7 +1012,9 @@ func iterMapProgram(cfg *Config, st *hx.Stats, w *hx.W, rng *rand.Rand, p int) {
 	// digest modes: 0 real digests; 1 few first-level digests (inline groups that grow into
 	// external groups); 2 collisions at the first three levels; 3 tiny alphabets at every level
 	// (full collisions: insertion-ordered lists at the last level); 4 few levels
-	mode := []int{0, 1, 2, 3, 4, 1, 3}[(p/2)%7]
+	// 5 boundary digests (audit a1 F8): first-level digests 0 and 2^64-1, groups at both ends of
+	// data slabs (the next-key hand-off across slab boundaries starts / ends inside a group)
+	mode := []int{0, 1, 2, 3, 4, 5, 1, 3, 5}[(p/2)%9]
 	var mkBuilder func() atree.DigesterBuilder
 	switch mode {
 	case 0:
@@ -1017,11 +1031,28 @@ func iterMapProgram(cfg *Config, st *hx.Stats, w *hx.W, rng *rand.Rand, p int) {
 		case 4:
 			e.L = uint(1 + rng.Intn(3))
 			alph = []uint64{5 + uint64(rng.Intn(20)), 3, 2, 2}
+		case 5:
+			alph = []uint64{8 + uint64(rng.Intn(40)), 1 << 62, 1 << 62, 1 << 62}
+			if rng.Intn(2) == 0 {
+				alph = []uint64{8 + uint64(rng.Intn(40)), 2, 2, 2}
+			}
 		}
 		L := e.L
+		boundary := mode == 5
 		mkBuilder = func() atree.DigesterBuilder {
 			return &hx.TableDigesterBuilder{L: L, Fn: func(k hx.TV, l uint) uint64 {
-				return itMix(k.Pay, uint64(l), salt) % alph[l] * 1000003
+				x := itMix(k.Pay, uint64(l), salt) % alph[l]
+				if boundary && l == 0 {
+					// the smallest and the largest first-level digest, each shared by a group of keys
+					switch x {
+					case 0:
+						return 0
+					case 1:
+						return ^uint64(0)
+					}
+					return x << 58
+				}
+				return x * 1000003
 			}}
 		}
 	}
@@ -1048,6 +1079,9 @@ func iterMapProgram(cfg *Config, st *hx.Stats, w *hx.W, rng *rand.Rand, p int) {
 		target = 8 + rng.Intn(30)
 	default:
 		target = 60 + rng.Intn(300)
+	}
+	if p/2 == 5 {
+		target = 0 // every run iterates an empty map (the empty iterator objects)
 	}
 	valProf := rng.Intn(5)
 	nKeys := target + target/4 + 3
@@ -1090,6 +1124,8 @@ func iterMapProgram(cfg *Config, st *hx.Stats, w *hx.W, rng *rand.Rand, p int) {
 			e.itLoadedRound(k, mkBuilder)
 		}
 		lastFull = e.itFlavours(mkBuilder)
+		e.itStop(mkBuilder)
+		e.itObj(mkBuilder)
 		e.itMutSet(valProf)
 		e.itFull()
 		e.step++
@@ -1155,6 +1191,17 @@ func (e *itMap) itShape() {
 	}
 	if strings.Contains(dump, "m(") {
 		e.st.Hit("map:shape:multi-level")
+	}
+	multi := strings.Contains(dump, "m(")
+	for k := range e.shadow {
+		if digs, err := hx.Digests(e.b, k); err == nil && len(digs) > 0 && multi {
+			if digs[0] == 0 {
+				e.st.Hit("map:boundary:first-level-digest=0")
+			}
+			if digs[0] == ^uint64(0) {
+				e.st.Hit("map:boundary:first-level-digest=max")
+			}
+		}
 	}
 	// data slabs of the tree proper end in ",0,0)" (not any-size, not a collision-group slab)
 	for _, part := range strings.Split(dump, " d(") {
